@@ -98,3 +98,101 @@ def merge_rule(repo, res, RULE="MERGE"):
                 except Undecided as x:
                     raise AnalysisError("%s [%s]: %s" % (qn, label, x))
                 res.check(RULE, "%s [%s]: each boundary = predecessor's + successor's (joint vertex kept once)" % (qn, label), not bad, lan.mod, fn, "%s [%s]: %s" % (qn, label, "; ".join(bad[:2])), "the merged lanelet's boundaries are not the concatenation of both parts in driving direction (wrong order, wrong polyline, or the joint vertex doubled / dropped)", qualname=qn)
+
+
+# --------------------------------------------------------------------------- route enumeration
+def route_rules(repo, res, RULE="ROUTE-FLOW"):
+    """find_lanelet_successors_in_range / find_lanelet_predecessors_in_range, evaluated on small directed graphs
+    (chain, fork and merge, cycles through and beside the start lanelet, dead end) whose lanelet lengths are atoms;
+    every comparison of an accumulated length with the range is answered by the valuation of the case (lengths 1 and
+    10 alternating, inner boundaries half as long; ranges below the first lanelet, between, exactly on an accumulated
+    length, beyond everything).  The result must
+
+      * come at all (a loop that has not ended after 200 rounds is reported),
+      * consist of chains along the links, each starting at a direct successor (predecessor), without a lanelet twice
+        and without the start lanelet,
+      * cover every direct successor (predecessor),
+      * extend a chain only while the length accumulated so far is below the range."""
+    from ..strdom import NonTermination, PyFunc
+    from .c04ev import _num
+
+    lan = repo.cls(L, "Lanelet")
+    GRAPHS = [
+        ("chain 1-2-3-4", {1: [2], 2: [3], 3: [4], 4: []}),
+        ("fork and merge 1-{2,3}-4-5", {1: [2, 3], 2: [4], 3: [4], 4: [5], 5: []}),
+        ("cycle through the start 1-2-3-1", {1: [2], 2: [3], 3: [1]}),
+        ("cycle beside the start 1-2-3-{2,4}", {1: [2], 2: [3], 3: [2, 4], 4: []}),
+        ("fork on the way 1-2-{3,4}", {1: [2], 2: [3, 4], 3: [], 4: []}),
+        ("no link at all", {1: []}),
+    ]
+    LENGTH = {1: 10.0, 2: 1.0, 3: 10.0, 4: 1.0, 5: 7.0}  # centre-line lengths; the inner boundary is half as long
+    RANGES = [0.5, 1, 5, 11, 11.5, 12, 1000]
+    for mname, fwd in (("find_lanelet_successors_in_range", True), ("find_lanelet_predecessors_in_range", False)):
+        owner, fn = repo.find_method(lan, mname)
+        if fn is None:
+            raise AnalysisError("Lanelet.%s missing" % mname)
+        qn = "Lanelet.%s" % mname
+        for glabel, graph in GRAPHS:
+            for rng in RANGES:
+                vals = {"range": float(rng)}
+                objs = {}
+                for k in graph:
+                    succ = graph[k]
+                    pred = [a for a, bs in graph.items() if k in bs]
+                    ln, inner = Sym("length of lanelet %d" % k, "num"), Sym("inner length of lanelet %d" % k, "num")
+                    vals[ln.name], vals[inner.name] = LENGTH[k], LENGTH[k] / 2
+                    objs[k] = Obj(lan, {"_lanelet_id": k, "_successor": ListV(list(succ if fwd else pred)), "_predecessor": ListV(list(pred if fwd else succ)), "_distance": ListV([0.0, ln]), "_inner_distance": ListV([0.0, inner])}, label="lanelet %d" % k)
+                    objs[k].fields["distance"] = objs[k].fields["_distance"]
+                    objs[k].fields["inner_distance"] = objs[k].fields["_inner_distance"]
+                net = Obj(None, {"find_lanelet_by_id": PyFunc(lambda a, k_, objs=objs: objs.get(a[0] if a else k_.get("lanelet_id"), NONE), "find_lanelet_by_id")}, closed=True, label="lanelet network")
+                ev = Ev(repo)
+                ev.pure_modules = {"np", "numpy", "math"}
+
+                def oracle(kind, a, b, vals=vals):
+                    if kind not in ("Lt", "LtE", "Gt", "GtE", "Eq", "NotEq"):
+                        return None
+                    try:
+                        x, y = _num(a, vals), _num(b, vals)
+                    except Undecided:
+                        return None
+                    return {"Lt": x < y, "LtE": x <= y, "Gt": x > y, "GtE": x >= y, "Eq": x == y, "NotEq": x != y}[kind]
+
+                ev.oracle = oracle
+                label = "%s, range %s" % (glabel, rng)
+                links = graph  # for the predecessor search the graph is mirrored: its links are the predecessor links
+                bad = []
+                try:
+                    r = ev.call_fn(ev.bind(fn, owner, objs[1]), [net, Sym("range", "num")], {}, fn)
+                    chains = []
+                    for c in (r.items if isinstance(r, ListV) else []):
+                        ids = c.items if isinstance(c, ListV) else None
+                        if ids is None and hasattr(c, "fields") and isinstance(c.fields.get("ids"), ListV):
+                            ids = c.fields["ids"].items
+                        if ids is None or not all(isinstance(i, int) for i in ids):
+                            raise Undecided("the result holds %s" % show(c))
+                        chains.append(list(ids))
+                    if not isinstance(r, ListV):
+                        raise Undecided("the result is %s" % show(r))
+                    for ch in chains:
+                        if not ch or ch[0] not in links[1]:
+                            bad.append("chain %s does not start at a direct %s of the start lanelet" % (ch, "successor" if fwd else "predecessor"))
+                        elif any(b_ not in links[a_] for a_, b_ in zip(ch, ch[1:])):
+                            bad.append("chain %s does not follow the links" % ch)
+                        elif len(set(ch)) != len(ch) or 1 in ch:
+                            bad.append("chain %s visits a lanelet twice or returns to the start lanelet" % ch)
+                        else:
+                            for i in range(1, len(ch)):
+                                so_far = sum(LENGTH[x] for x in ch[:i])
+                                if so_far >= rng:
+                                    bad.append("chain %s was extended by lanelet %d although %s has length %g, which reaches the range %s" % (ch, ch[i], ch[:i], so_far, rng))
+                                    break
+                    missing = [s_ for s_ in links[1] if not any(ch and ch[0] == s_ for ch in chains)]
+                    if missing:
+                        bad.append("no chain starts at the direct %s %s" % ("successor" if fwd else "predecessor", missing))
+                except NonTermination as x:
+                    bad.append("does not terminate: %s" % x)
+                except _Raise as x:
+                    bad.append("raises %s" % x.what)
+                except Undecided as x:
+                    raise AnalysisError("%s [%s]: %s" % (qn, label, x))
+                res.check(RULE, "%s [%s]: loop-free chains of links from every direct neighbour, extended only below the range" % (qn, label), not bad, lan.mod, fn, "%s [%s]: %s" % (qn, label, "; ".join(bad[:2])), "the range search does not terminate, returns something that is not a loop-free chain of links, misses a direct neighbour, or extends a chain beyond the range", qualname=qn)
